@@ -34,6 +34,11 @@ func (cc *ClientConn) VfCliFacts() VfCliFacts {
 	return f
 }
 
+// VfCliNetHTTPReserve / VfCliNetHTTPRelease are the reservation calls net/http's ClientConn makes
+// (netHTTPClientConn.Reserve / Release).
+func (cc *ClientConn) VfCliNetHTTPReserve() bool { return netHTTPClientConn{cc}.Reserve() == nil }
+func (cc *ClientConn) VfCliNetHTTPRelease()      { netHTTPClientConn{cc}.Release() }
+
 // VfCliErrKind maps a RoundTrip error onto the abstract result kinds of specs/h2client.
 // It only names what was returned (identity / type / message of the error value).
 func VfCliErrKind(err error) (kind string, code int) {
@@ -65,6 +70,9 @@ func VfCliErrKind(err error) (kind string, code int) {
 		return "rst", int(se.Code)
 	}
 	msg := err.Error()
+	if errors.Is(err, errRequestHeaderListSize) || strings.Contains(msg, "invalid HTTP header") {
+		return "hdrerr", 0
+	}
 	if strings.HasPrefix(msg, "http2: Transport: cannot retry err [") {
 		return "noretry", 0
 	}
